@@ -30,6 +30,24 @@ theorem rangesOrdered_le {lo hi : Nat} {cs : List Chunk} (h : rangesOrdered lo c
   | nil => exact h
   | cons c cs ih => simp only [rangesOrdered] at h; have := ih h.2.2; omega
 
+theorem rangesContiguous_append {lo mid hi : Nat} {a b : List Chunk}
+    (ha : rangesContiguous lo a mid) (hb : rangesContiguous mid b hi) :
+    rangesContiguous lo (a ++ b) hi := by
+  induction a generalizing lo with
+  | nil => simp only [rangesContiguous, List.nil_append] at *; subst ha; exact hb
+  | cons c cs ih =>
+    simp only [rangesContiguous, List.cons_append] at *
+    exact ⟨ha.1, ha.2.1, ih ha.2.2⟩
+
+/-- contiguous ranges are in particular ordered and non-overlapping -/
+theorem rangesContiguous_ordered {lo hi : Nat} {cs : List Chunk} (h : rangesContiguous lo cs hi) :
+    rangesOrdered lo cs hi := by
+  induction cs generalizing lo with
+  | nil => simp only [rangesContiguous, rangesOrdered] at *; omega
+  | cons c cs ih =>
+    simp only [rangesContiguous, rangesOrdered] at *
+    exact ⟨by omega, h.2.1, ih h.2.2⟩
+
 theorem noneLast_nil : noneLast [] := by intro x hx; cases hx
 
 theorem noneLast_append {a b : List Chunk} (ha : noneLast a) (hb : noneLast b) :
@@ -124,13 +142,13 @@ theorem decodeToStr_progress (L : c.Lawful) (cap : Nat) (hcap : 4 ≤ cap) (s : 
 /-! ### the `feed_text` loop -/
 
 theorem feedLoop_total (L : c.Lawful) (cap : Nat) (hcap : 4 ≤ cap) (last : Bool) :
-    ∀ (fuel : Nat) (s : c.σ) (raw : Bytes) (pos : Nat), mu c s raw < fuel →
-      (feedLoop c pol cap last fuel s raw pos).isSome = true := by
+    ∀ (fuel : Nat) (s : c.σ) (raw : Bytes) (pos unrep : Nat), mu c s raw < fuel →
+      (feedLoop c pol cap last fuel s raw pos unrep).isSome = true := by
   intro fuel
   induction fuel with
-  | zero => intro s raw pos h; omega
+  | zero => intro s raw pos unrep h; omega
   | succ fuel ih =>
-    intro s raw pos h
+    intro s raw pos unrep h
     simp only [feedLoop]
     split
     · rfl
@@ -142,29 +160,36 @@ theorem feedLoop_total (L : c.Lawful) (cap : Nat) (hcap : 4 ≤ cap) (last : Boo
       have hp := decodeToStr_progress pol L cap hcap s raw last hof
       have := ih (decodeToStr c pol s raw cap last).st
         (raw.drop (decodeToStr c pol s raw cap last).read) (pos + (decodeToStr c pol s raw cap last).read)
+        (if (!(decodeToStr c pol s raw cap last).out.isEmpty || last) = true
+          then pos + (decodeToStr c pol s raw cap last).read else unrep)
         (by omega)
       revert this
       cases feedLoop c pol cap last fuel (decodeToStr c pol s raw cap last).st
-        (raw.drop (decodeToStr c pol s raw cap last).read) (pos + (decodeToStr c pol s raw cap last).read) with
+        (raw.drop (decodeToStr c pol s raw cap last).read) (pos + (decodeToStr c pol s raw cap last).read)
+        (if (!(decodeToStr c pol s raw cap last).out.isEmpty || last) = true
+          then pos + (decodeToStr c pol s raw cap last).read else unrep) with
       | none => simp
       | some v => simp
 
 /-- What the loop delivers: the text of its chunks, followed by what the returned decoder state still
-owes, is the unbounded decode; ranges in order inside `[pos, pos+len]`; `last` only on the final
-chunk of a `last` call. -/
+owes, is the unbounded decode; the chunk ranges are contiguous from `unrep` (the first byte not yet
+reported) to the returned `unreported_bytes_start`, which is the end of the input after a `last` call;
+`last` only on the final chunk of a `last` call. -/
 theorem feedLoop_sound (L : c.Lawful) (cap : Nat) (last : Bool) (more : Bytes)
     (hm : last = true → more = []) :
-    ∀ (fuel : Nat) (s : c.σ) (raw : Bytes) (pos : Nat) (s' : c.σ) (e : Nat) (cs : List Chunk),
-      feedLoop c pol cap last fuel s raw pos = some (s', e, cs) →
+    ∀ (fuel : Nat) (s : c.σ) (raw : Bytes) (pos unrep : Nat) (s' : c.σ) (e u : Nat) (cs : List Chunk),
+      unrep ≤ pos →
+      feedLoop c pol cap last fuel s raw pos unrep = some (s', e, u, cs) →
       c.tail s (raw ++ more) = chunksText cs ++ (if last = true then [] else c.tail s' more)
       ∧ e = pos + raw.length
-      ∧ rangesOrdered pos cs e
-      ∧ (if last = true then oneLastAtEnd cs e else noneLast cs) := by
+      ∧ rangesContiguous unrep cs u
+      ∧ u ≤ e
+      ∧ (if last = true then oneLastAtEnd cs e ∧ u = e else noneLast cs) := by
   intro fuel
   induction fuel with
-  | zero => intro s raw pos s' e cs h; simp [feedLoop] at h
+  | zero => intro s raw pos unrep s' e u cs _ h; simp [feedLoop] at h
   | succ fuel ih =>
-    intro s raw pos s' e cs h
+    intro s raw pos unrep s' e u cs hup h
     simp only [feedLoop] at h
     have hsound := decodeAux_sound pol L last more hm raw pol.start s cap
     have hrle := decodeAux_read_le pol last raw pol.start s cap
@@ -172,6 +197,26 @@ theorem feedLoop_sound (L : c.Lawful) (cap : Nat) (last : Bool) (more : Bytes)
       remTail c last (decodeToStr c pol s raw cap last) raw more at hsound
     change (decodeToStr c pol s raw cap last).read ≤ raw.length at hrle
     generalize hr : decodeToStr c pol s raw cap last = r at h hsound hrle
+    -- the chunk of this iteration
+    have hemitText : ∀ (fl : Bool), chunksText
+        (if (!r.out.isEmpty || last) = true then
+          [({ text := r.out, last := fl, start := unrep, stop := unrep + (pos + r.read - unrep) } : Chunk)]
+         else []) = r.out := by
+      intro fl
+      by_cases he : r.out.isEmpty = true
+      · have : r.out = [] := List.isEmpty_iff.mp he
+        cases last <;> simp [this, chunksText]
+      · simp [he, chunksText]
+    have hemitRange : ∀ (fl : Bool), rangesContiguous unrep
+        (if (!r.out.isEmpty || last) = true then
+          [({ text := r.out, last := fl, start := unrep, stop := unrep + (pos + r.read - unrep) } : Chunk)]
+         else [])
+        (if (!r.out.isEmpty || last) = true then pos + r.read else unrep) := by
+      intro fl
+      split
+      · simp only [rangesContiguous]
+        exact ⟨trivial, Nat.le_add_right _ _, by omega⟩
+      · simp only [rangesContiguous]
     by_cases hf : r.status = .inputEmpty
     · -- finished
       have hread : r.read = raw.length := by
@@ -180,25 +225,18 @@ theorem feedLoop_sound (L : c.Lawful) (cap : Nat) (last : Bool) (more : Bytes)
           (decodeToStr c pol s raw cap last).read = raw.length at this
         rw [hr] at this; exact this hf
       simp only [hf, if_true, Option.some.injEq, Prod.mk.injEq, decide_true, Bool.and_true] at h
-      obtain ⟨rfl, rfl, rfl⟩ := h
-      refine ⟨?_, by omega, ?_, ?_⟩
-      · rw [hsound]
+      obtain ⟨rfl, rfl, rfl, rfl⟩ := h
+      refine ⟨?_, by omega, hemitRange last, ?_, ?_⟩
+      · rw [hsound, hemitText]
         cases last with
-        | true => simp [remTail, hf, chunksText]
-        | false =>
-          simp only [remTail, hf, hread, List.drop_length, List.nil_append, Bool.false_eq_true,
-            false_and, if_false, Bool.or_false]
-          by_cases he : r.out.isEmpty = true
-          · have : r.out = [] := List.isEmpty_iff.mp he
-            simp [this, chunksText]
-          · simp [he, chunksText]
-      · split
-        · simp only [rangesOrdered]; omega
-        · simp only [rangesOrdered]; omega
+        | true => simp [remTail, hf]
+        | false => simp [remTail, hread]
+      · split <;> omega
       · cases last with
         | true =>
           simp only [Bool.or_true, if_true]
-          exact ⟨[], _, rfl, rfl, rfl, by intro x hx; cases hx⟩
+          exact ⟨⟨[], _, rfl, rfl, by show unrep + (pos + r.read - unrep) = pos + r.read; omega,
+            by intro x hx; cases hx⟩, trivial⟩
         | false =>
           simp only [Bool.false_eq_true, if_false, Bool.or_false]
           split
@@ -206,43 +244,36 @@ theorem feedLoop_sound (L : c.Lawful) (cap : Nat) (last : Bool) (more : Bytes)
           · exact noneLast_nil
     · -- OutputFull: loop again on the rest
       simp only [hf, if_false] at h
-      cases hrec : feedLoop c pol cap last fuel r.st (raw.drop r.read) (pos + r.read) with
-      | none => simp [hrec] at h
+      cases hrec : feedLoop c pol cap last fuel r.st (raw.drop r.read) (pos + r.read)
+          (if (!r.out.isEmpty || last) = true then pos + r.read else unrep) with
+      | none => rw [hrec] at h; simp at h
       | some v =>
-        obtain ⟨s2, e2, cs2⟩ := v
-        simp only [hrec, Option.some.injEq, Prod.mk.injEq] at h
-        obtain ⟨rfl, rfl, rfl⟩ := h
-        obtain ⟨i1, i2, i3, i4⟩ := ih _ _ _ _ _ _ hrec
+        obtain ⟨s2, e2, u2, cs2⟩ := v
+        rw [hrec] at h
+        simp only [Option.some.injEq, Prod.mk.injEq] at h
+        obtain ⟨rfl, rfl, rfl, rfl⟩ := h
+        obtain ⟨i1, i2, i3, i4, i5⟩ := ih _ _ _ _ _ _ _ _ (by split <;> omega) hrec
         have hrem : remTail c last r raw more = c.tail r.st (raw.drop r.read ++ more) := by
           simp [remTail, hf]
-        have hemitText : chunksText
-            (if (!r.out.isEmpty || last) = true then
-              [({ text := r.out, last := last && decide False, start := pos, stop := pos + r.read } : Chunk)]
-             else []) = r.out := by
-          by_cases he : r.out.isEmpty = true
-          · have : r.out = [] := List.isEmpty_iff.mp he
-            cases last <;> simp [this, chunksText]
-          · simp [he, chunksText]
-        refine ⟨?_, ?_, ?_, ?_⟩
+        refine ⟨?_, ?_, ?_, i4, ?_⟩
         · rw [hsound, hrem, i1, chunksText_append, hemitText, List.append_assoc]
         · rw [i2, List.length_drop]; omega
-        · apply rangesOrdered_append (mid := pos + r.read)
-          · split
-            · simp only [rangesOrdered]; omega
-            · simp only [rangesOrdered]; omega
-          · exact i3
+        · exact rangesContiguous_append (hemitRange _) i3
         · have hn : noneLast
               (if (!r.out.isEmpty || last) = true then
-                [({ text := r.out, last := last && decide False, start := pos, stop := pos + r.read } : Chunk)]
+                [({ text := r.out, last := last && decide False, start := unrep,
+                    stop := unrep + (pos + r.read - unrep) } : Chunk)]
                else []) := by
             split
             · intro x hx; simp at hx; subst hx; simp
             · exact noneLast_nil
           cases last with
-          | true => simp only [if_true] at i4 ⊢; exact oneLastAtEnd_prepend hn i4
+          | true =>
+            simp only [if_true] at i5 ⊢
+            exact ⟨oneLastAtEnd_prepend hn i5.1, i5.2⟩
           | false =>
-            simp only [Bool.false_eq_true, if_false] at i4 ⊢
-            exact noneLast_append hn i4
+            simp only [Bool.false_eq_true, if_false] at i5 ⊢
+            exact noneLast_append hn i5
 
 end
 
